@@ -1346,7 +1346,9 @@ func (f *Flooder) verifySleepCommand(cmd *protocol.SleepCommand) error {
 	if timeDiff < 0 {
 		timeDiff = -timeDiff
 	}
-	if timeDiff > f.timestampWindow {
+	// timeDiff is still negative when the distance does not fit a Duration
+	// (a timestamp centuries ahead saturates time.Since and cannot be negated)
+	if timeDiff < 0 || timeDiff > f.timestampWindow {
 		return fmt.Errorf("timestamp outside validity window (%v old, max %v)", timeDiff, f.timestampWindow)
 	}
 
@@ -1377,7 +1379,9 @@ func (f *Flooder) verifyWakeCommand(cmd *protocol.WakeCommand) error {
 	if timeDiff < 0 {
 		timeDiff = -timeDiff
 	}
-	if timeDiff > f.timestampWindow {
+	// timeDiff is still negative when the distance does not fit a Duration
+	// (a timestamp centuries ahead saturates time.Since and cannot be negated)
+	if timeDiff < 0 || timeDiff > f.timestampWindow {
 		return fmt.Errorf("timestamp outside validity window (%v old, max %v)", timeDiff, f.timestampWindow)
 	}
 
